@@ -473,7 +473,8 @@ def run_meshi(c, rec):
                         rec["oracle"].append("roundtrip-units")
     else:
         clash = len({(d[2:] if d.startswith("k_") else d) for d in m["dims"]}) < len(m["dims"])
-        if valid and not clash:
+        # (an explicit shape with the full, non-real kind is outside the property: may be rejected)
+        if valid and not clash and (rfft or sh is None):
             rec["oracle"].append("valid-shape-rejected")
     rec.update(obs=obs or dict(err=r),
                coq=f"CMeshI {mesh_in_coq(m)} {g.b(rfft)} {shape_coq(sh)} {mesh_obs_coq(obs)}",
